@@ -151,4 +151,18 @@ Definition run_MavenRes (kind : bytes) (a : sx) : option sx :=
               end
           | _ => badcase
           end)
+  else if bytes_eqb kind [109;97;118;101;110;95;114;101;116;114;121] (* maven_retry *) then
+    (* the resolution with a much larger retry bound than the regenerated maven_max_retries (probe: stops early
+       when an incompatible pass met nothing new) *)
+    Some (match a with
+          | SL [r; t] =>
+              match dec_vk r, dec_tables t with
+              | Some root, Some tb =>
+                  sx_graph (resolve_probe (tc_version tb) (tc_versions tb) (tc_requirements tb) (tc_simple tb)
+                                            (tc_match tb) (tc_less tb)
+                                            (Nat.max (10 * maven_max_retries) 1000) maven_fuel root)
+              | _, _ => badcase
+              end
+          | _ => badcase
+          end)
   else None.
